@@ -649,27 +649,6 @@ def oracle_expr(c, mode, obs):
     return 'holds_c01 %s %s %s' % (geom, ops_coq(c), to_coq(obs))
 
 
-def known_class(c, mode, obs):
-    """last-term-exclusive-overwrite: ExclusivePublication in the last term of the position space (term count 2^31-1): an append that
-    did not fit answered MaxPositionExceeded while the position was below the end of the position space, and a later append was accepted
-    (it is written over the padding frame the failed append left, which the subscriber may already have consumed)."""
-    if c.get('pub') != 'x' or isinstance(obs, int) or obs[0] != 'list' or len(obs[1]) != len(c['ops']):
-        return None
-    tlen = c['geom'][0]
-    maxpos = tlen * 2**31
-    failed = False
-    for o, ob in zip(c['ops'], obs[1]):
-        if o[0] not in ('o', 'c') or isinstance(ob, int) or ob[0] != 'tuple':
-            continue
-        r, ppos = ob[1][0], ob[1][3]
-        if r == ('app', 'Err', [('app', 'MaxPositionExceeded', [])]) and ppos[0] == 'app' and ppos[1] == 'Ok' and ppos[2][0] < maxpos \
-                and ppos[2][0] >= maxpos - tlen:
-            failed = True
-        elif failed and r[0] == 'app' and r[1] == 'Ok':
-            return 'last-term-exclusive-overwrite'
-    return None
-
-
 def nontrivial(c):
     ops = c['ops']
     return c.get('judged') is True and len(ops) >= 5 and any(o[0] in ('o', 'c') for o in ops) and any(o[0] == 'p' for o in ops)
